@@ -21,12 +21,45 @@ SCRATCH = os.environ.get("VERIF_SCRATCH", "/scratch/verif")
 CACHE = os.path.join(VERIF, ".cache")
 
 
-def sync_repo(repo, dest):
+def sync_repo(repo, dest, target_dir=None):
+    """copy the tree under check to a scratch path. rsync keeps the source mtimes, and cargo decides freshness by mtime: a file
+    that was CHANGED and then changed BACK (a seeded patch applied to one scratch copy, the pristine tree copied next) would look
+    older than the artifacts built from the patched text and the stale artifacts would be reused. So the content hash of every
+    source file is remembered next to the build output; any file whose content differs from what the last build saw is touched."""
     os.makedirs(dest, exist_ok=True)
     r = subprocess.run(["rsync", "-a", "--delete", "--exclude", "/target", "--exclude", ".git", repo.rstrip("/") + "/",
                         dest + "/"], capture_output=True, text=True)
     if r.returncode != 0:
         raise Undecided("rsync failed: " + r.stderr[-300:])
+    if target_dir is None:
+        return
+    import hashlib
+    os.makedirs(target_dir, exist_ok=True)
+    mpath = os.path.join(target_dir, "verif-source-manifest.json")
+    try:
+        prev = json.load(open(mpath))
+    except Exception:
+        prev = {}
+    cur = {}
+    now = time.time()
+    for root, dirs, files in os.walk(dest):
+        dirs[:] = [d for d in dirs if d not in ("target", ".git")]
+        for f in files:
+            if not (f.endswith(".rs") or f.endswith(".toml") or f == "Cargo.lock" or f.endswith(".recon")):
+                continue
+            fp = os.path.join(root, f)
+            rel = os.path.relpath(fp, dest)
+            try:
+                h = hashlib.sha1(open(fp, "rb").read()).hexdigest()
+            except OSError:
+                continue
+            cur[rel] = h
+            # (no manifest yet: nothing is known about what the existing artifacts were built from -- rebuild everything once)
+            if prev.get(rel) != h:
+                os.utime(fp, (now, now))
+    # files that disappeared: touch their directory's lib.rs/mod.rs is not needed (rustc fails or rebuilds on missing files)
+    with open(mpath, "w") as fh:
+        json.dump(cur, fh)
 
 
 def harness_names(path):
@@ -135,7 +168,7 @@ def run_kx(c, repo, workdir, tier):
     fcntl.flock(lock, fcntl.LOCK_EX)
     dest = os.path.join(SCRATCH, "kx-" + pkg)
     try:
-        sync_repo(repo, dest)
+        sync_repo(repo, dest, os.path.join(CACHE, "kani-target", pkg))
         attach = os.path.join(dest, c["crate_dir"], c["attach"])
         if not os.path.exists(attach):
             comp["undecided"] = f"attach point {c['attach']} missing (lost anchor)"
@@ -283,7 +316,7 @@ def replay_test(f, repo):
     pkg = rt["package"]
     dest = os.path.join(SCRATCH, "kxreplay-" + pkg)
     try:
-        sync_repo(repo, dest)
+        sync_repo(repo, dest, os.path.join(CACHE, "kani-playback", pkg))
         attach = os.path.join(dest, rt["crate_dir"], rt["attach"])
         hfile = os.path.join(VERIF, rt["harness_file"])
         # the playback test must live in the harness module: write a copy of the harness file with the test appended
